@@ -354,4 +354,27 @@ pub fn possible_intersection<F>(""")]),
     B('pp-skip-by-filter', ['C04', 'C07', 'C13', 'C06', 'C09', 'C08', 'C03'], [('lib/src/boolean/fill_queue.rs', '    for line in contour_or_hole.lines() {\n        if line.start == line.end {\n            continue; // skip collapsed edges\n        }\n', '    for line in contour_or_hole.lines().filter(|line| line.start != line.end) {\n')]),
     M('ce-filter-collect-dead-other-selected', ['C02', 'C04'], [('lib/src/boolean/connect_edges.rs', '    let mut result_events: Vec<Rc<SweepEvent<F>>> = Vec::new();\n\n    for event in sorted_events {\n        if (event.is_left() && event.is_in_result())\n            || (!event.is_left() && event.get_other_event().map(|o| o.is_in_result()).unwrap_or(false))\n        {\n            result_events.push(event.clone());\n        }\n    }\n', '    let mut result_events: Vec<Rc<SweepEvent<F>>> = sorted_events\n        .iter()\n        .filter(|event| {\n            (event.is_left() && event.is_in_result())\n                || (!event.is_left() && event.get_other_event().map(|o| o.is_in_result()).unwrap_or(true))\n        })\n        .cloned()\n        .collect();\n')], {'C02': 'T-result-events'}),
     M('pp-filter-skips-vertical-edges', ['C04', 'C13'], [('lib/src/boolean/fill_queue.rs', '    for line in contour_or_hole.lines() {\n        if line.start == line.end {\n            continue; // skip collapsed edges\n        }\n', '    for line in contour_or_hole.lines().filter(|line| line.start.x != line.end.x) {\n')], {'C04': 'W-collapsed'}),
+    # ---- batch of behaviour-preserving rewrites (sweep_event, compare_segments, helper, signed_area)
+    B('se-is_below-bind-points', ['C15', 'C14', 'C01', 'C08', 'C10', 'C03', 'C13'], [('lib/src/boolean/sweep_event.rs', '            if self.is_left() {\n                signed_area(self.point, other_event.point, p) > 0.\n            } else {\n                signed_area(other_event.point, self.point, p) > 0.\n            }', '            let (a, b) = if self.is_left() {\n                (self.point, other_event.point)\n            } else {\n                (other_event.point, self.point)\n            };\n            signed_area(a, b, p) > 0.')]),
+    B('se-is_vertical-map_or', ['C15', 'C14', 'C01', 'C08', 'C10', 'C03', 'C13'], [('lib/src/boolean/sweep_event.rs', '        match self.get_other_event() {\n            Some(ref other_event) => self.point.x == other_event.point.x,\n            None => false,\n        }', '        self.get_other_event().map_or(false, |other_event| self.point.x == other_event.point.x)')]),
+    B('se-cmp-else-if-chain', ['C15', 'C14', 'C01', 'C08', 'C10', 'C03', 'C13'], [('lib/src/boolean/sweep_event.rs', '        if p1.x > p2.x {\n            return Ordering::Less;\n        }\n        if p1.x < p2.x {\n            return Ordering::Greater;\n        }\n        if p1.y > p2.y {\n            return Ordering::Less;\n        }\n        if p1.y < p2.y {\n            return Ordering::Greater;\n        }\n', '        if p1.x > p2.x {\n            return Ordering::Less;\n        } else if p1.x < p2.x {\n            return Ordering::Greater;\n        } else if p1.y > p2.y {\n            return Ordering::Less;\n        } else if p1.y < p2.y {\n            return Ordering::Greater;\n        }\n')]),
+    B('se-is_before-via-cmp', ['C15', 'C14', 'C01', 'C08', 'C10', 'C03', 'C13'], [('lib/src/boolean/sweep_event.rs', '        self > other\n', '        self.cmp(other) == Ordering::Greater\n')]),
+    B('se-cmp-left-differs-xor', ['C15', 'C14', 'C01', 'C08', 'C10', 'C03', 'C13'], [('lib/src/boolean/sweep_event.rs', '        if self.is_left() != other.is_left() {', '        if self.is_left() ^ other.is_left() {')]),
+    B('se-is_above-direct', ['C15', 'C14', 'C01', 'C08', 'C10', 'C03', 'C13'], [('lib/src/boolean/sweep_event.rs', '        !self.is_below(p)\n', '        let below = self.is_below(p);\n        !below\n')]),
+    B('cs-swap-flag', ['C15', 'C13', 'C14', 'C03', 'C12', 'C08', 'C10'], [('lib/src/boolean/compare_segments.rs', '    let (se_old_l, se_new_l, less_if) = if se1_l.is_before(se2_l) {\n        (se1_l, se2_l, helper::less_if as fn(bool) -> Ordering)\n    } else {\n        (se2_l, se1_l, helper::less_if_inversed as fn(bool) -> Ordering)\n    };\n', '    let in_order = se1_l.is_before(se2_l);\n    let (se_old_l, se_new_l) = if in_order { (se1_l, se2_l) } else { (se2_l, se1_l) };\n    let less_if = if in_order {\n        helper::less_if as fn(bool) -> Ordering\n    } else {\n        helper::less_if_inversed as fn(bool) -> Ordering\n    };\n')]),
+    B('cs-point-arm-single-return', ['C15', 'C13', 'C14', 'C03', 'C12', 'C08', 'C10'], [('lib/src/boolean/compare_segments.rs', '                LineIntersection::Point(p) => {\n                    if p == se_new_l.point {\n                        return less_if(sa_r > 0.);\n                    } else {\n                        return less_if(sa_l > 0.);\n                    }\n                }', '                LineIntersection::Point(p) => {\n                    return less_if(if p == se_new_l.point { sa_r > 0. } else { sa_l > 0. });\n                }')]),
+    B('cs-same-side-xor-form', ['C15', 'C13', 'C14', 'C03', 'C12', 'C08', 'C10'], [('lib/src/boolean/compare_segments.rs', '            if (sa_l > 0.) == (sa_r > 0.) {', '            if !((sa_l > 0.) ^ (sa_r > 0.)) {')]),
+    B('cs-collinear-test-demorgan', ['C15', 'C13', 'C14', 'C03', 'C12', 'C08', 'C10'], [('lib/src/boolean/compare_segments.rs', '        if sa_l != 0. || sa_r != 0. {', '        if !(sa_l == 0. && sa_r == 0.) {')]),
+    B('hp-less_if-match', ['C15', 'C13', 'C14'], [('lib/src/boolean/helper.rs', 'pub fn less_if(condition: bool) -> Ordering {\n    if condition {\n        Ordering::Less\n    } else {\n        Ordering::Greater\n    }\n}', 'pub fn less_if(condition: bool) -> Ordering {\n    match condition {\n        true => Ordering::Less,\n        false => Ordering::Greater,\n    }\n}')]),
+    B('hp-less_if_inversed-via-less_if', ['C15', 'C13', 'C14'], [('lib/src/boolean/helper.rs', 'pub fn less_if_inversed(condition: bool) -> Ordering {\n    if condition {\n        Ordering::Greater\n    } else {\n        Ordering::Less\n    }\n}', 'pub fn less_if_inversed(condition: bool) -> Ordering {\n    less_if(!condition)\n}')]),
+    B('sa-inline-robust-coords', ['C15', 'C10', 'C08', 'C14', 'C12'], [('lib/src/boolean/signed_area.rs', '    orient2d(coord_to_robust(p0), coord_to_robust(p1), coord_to_robust(p2))', '    let (a, b, c) = (coord_to_robust(p0), coord_to_robust(p1), coord_to_robust(p2));\n    orient2d(a, b, c)')]),
+    # ---- batch of behaviour-preserving rewrites (mod.rs)
+    B('mod-disjoint-named', ['C01', 'C02', 'C04', 'C06', 'C09', 'C05', 'C07', 'C03', 'C12'], [('lib/src/boolean/mod.rs', '    if sbbox.min.x > cbbox.max.x || cbbox.min.x > sbbox.max.x || sbbox.min.y > cbbox.max.y || cbbox.min.y > sbbox.max.y\n    {\n        return trivial_result(subject, clipping, operation);\n    }', '    let disjoint =\n        sbbox.min.x > cbbox.max.x || cbbox.min.x > sbbox.max.x || sbbox.min.y > cbbox.max.y || cbbox.min.y > sbbox.max.y;\n    if disjoint {\n        return trivial_result(subject, clipping, operation);\n    }')]),
+    B('mod-holes-map-collect', ['C01', 'C02', 'C04', 'C06', 'C09', 'C05', 'C07', 'C03', 'C12'], [('lib/src/boolean/mod.rs', '            let mut interios: Vec<LineString<F>> = Vec::new();\n            for hole_id in &contour.hole_ids {\n                interios.push(LineString(contours[*hole_id as usize].points.clone()));\n            }\n', '            let interios: Vec<LineString<F>> = contour\n                .hole_ids\n                .iter()\n                .map(|hole_id| LineString(contours[*hole_id as usize].points.clone()))\n                .collect();\n')]),
+    B('mod-polygons-for-loop', ['C01', 'C02', 'C04', 'C06', 'C09', 'C05', 'C07', 'C03', 'C12'], [('lib/src/boolean/mod.rs', '    let polygons: Vec<Polygon<F>> = contours\n        .iter()\n        .filter(|contour| contour.is_exterior())\n        .map(|contour| {\n            let exterior = LineString(contour.points.clone());\n            let mut interios: Vec<LineString<F>> = Vec::new();\n            for hole_id in &contour.hole_ids {\n                interios.push(LineString(contours[*hole_id as usize].points.clone()));\n            }\n            Polygon::new(exterior, interios)\n        })\n        .collect();\n', '    let mut polygons: Vec<Polygon<F>> = Vec::new();\n    for contour in &contours {\n        if !contour.is_exterior() {\n            continue;\n        }\n        let exterior = LineString(contour.points.clone());\n        let mut interios: Vec<LineString<F>> = Vec::new();\n        for hole_id in &contour.hole_ids {\n            interios.push(LineString(contours[*hole_id as usize].points.clone()));\n        }\n        polygons.push(Polygon::new(exterior, interios));\n    }\n')]),
+    B('mod-trivial-union-extend', ['C01', 'C02', 'C04', 'C06', 'C09', 'C05', 'C07', 'C03', 'C12'], [('lib/src/boolean/mod.rs', '        Operation::Union | Operation::Xor => MultiPolygon(subject.iter().chain(clipping).cloned().collect()),', '        Operation::Union | Operation::Xor => {\n            let mut all = subject.to_vec();\n            all.extend_from_slice(clipping);\n            MultiPolygon(all)\n        }')]),
+    B('mod-infinity-lets', ['C01', 'C02', 'C04', 'C06', 'C09', 'C05', 'C07', 'C03', 'C12'], [('lib/src/boolean/mod.rs', '    let mut sbbox = BoundingBox {\n        min: Coord {\n            x: F::infinity(),\n            y: F::infinity(),\n        },\n        max: Coord {\n            x: F::neg_infinity(),\n            y: F::neg_infinity(),\n        },\n    };', '    let (inf, neg_inf) = (F::infinity(), F::neg_infinity());\n    let mut sbbox = BoundingBox {\n        min: Coord { x: inf, y: inf },\n        max: Coord { x: neg_inf, y: neg_inf },\n    };')]),
+    # ---- the geometric atoms (T-atoms)
+    M('is_vertical-wrong-axis', ['C14', 'C01'], [(SE, "            Some(ref other_event) => self.point.x == other_event.point.x,", "            Some(ref other_event) => self.point.y == other_event.point.y,")], {'C14': 'T-atoms'}),
+    M('is_vertical-true-without-other', ['C14'], [(SE, "            Some(ref other_event) => self.point.x == other_event.point.x,\n            None => false,", "            Some(ref other_event) => self.point.x == other_event.point.x,\n            None => true,")], {'C14': 'T-atoms'}),
 ]
